@@ -518,6 +518,16 @@ class Scalar(Parametrized):
         return super().__repr__()[:-1] + (
             ', is_mixed=True)' if self.is_mixed else ')')
 
+    def subs(self, *args):
+        data = rsubs(self.data, *args)
+        return Scalar(data, name=self._name, is_mixed=self.is_mixed)
+
+    def lambdify(self, *symbols, **kwargs):
+        from sympy import lambdify
+        data = lambdify(symbols, self.data, dict(kwargs, modules=Tensor.np))
+        return lambda *xs: Scalar(
+            data(*xs), name=self._name, is_mixed=self.is_mixed)
+
     @property
     def array(self):
         return [self.data]
@@ -537,6 +547,8 @@ class MixedScalar(Scalar):
     def __init__(self, data):
         super().__init__(data, is_mixed=True)
 
+    subs, lambdify = Parametrized.subs, Parametrized.lambdify
+
 
 class Sqrt(Scalar):
     """ Square root. """
@@ -547,6 +559,8 @@ class Sqrt(Scalar):
     @property
     def array(self):
         return [self.data ** .5]
+
+    subs, lambdify = Parametrized.subs, Parametrized.lambdify
 
 
 SWAP = Swap(qubit, qubit)
